@@ -239,6 +239,8 @@ def gen_history(rng, stats, maxcalls=40, profile=None):
             a += " fsgusefiller no"
         if rng.chance(0.06):
             a += " bestpath yes"
+        if EXTENDED and rng.chance(0.2):
+            a += " loglevel ERROR"      # error messages are really written (to stderr or to the decoder's log file)
         return a
 
     def do_init(force_good=False):
@@ -369,12 +371,12 @@ def gen_history(rng, stats, maxcalls=40, profile=None):
                   ("lookup", 2), ("addword0", 3), ("cfg", 2), ("cfgtyped", 2), ("times", 1), ("retain", 2), ("free", 4),
                   ("freenull", 1), ("logfile", 1), ("subretain", 2)]
             if not inutt:
-                w += [("reinitfeat", 1), ("mllrapply", 1), ("reinitcfg", 3 if usable_cfg else 0)]
+                w += [("reinitfeat", 1), ("mllrapply", 1 + 4 * len(sh["ml"])), ("reinitcfg", 3 if usable_cfg else 0)]
         has_lat = alive or bool(t.lat)
         w += [("latbestk", 2 if has_lat else 0), ("latprune", 1 if has_lat else 0), ("lattrav", 2 if has_lat else 0),
               ("lnode", 2 if has_lat else 0),
-              ("lnodenext", 5 * len(t.ln)), ("lnodefree", 2 * len(t.ln)), ("llink", 4 * len(t.ln)),
-              ("llinknext", 5 * len(t.ll)), ("llinkfree", 2 * len(t.ll))]
+              ("lnodenext", 5 * len(t.ln)), ("lnodefree", 2 * len(t.ln)), ("llink", 8 * len(t.ln)),
+              ("llinknext", 8 * len(t.ll)), ("llinkfree", 2 * len(t.ll))]
         nheld = len(sh["cfg"]) + len(sh["lmath"]) + len(sh["fe"]) + len(sh["feat"])
         w += [("cfgnew", 1), ("subuse", 2 * nheld), ("subfree", 2 * nheld), ("cfgk", 2 * len(sh["cfg"])),
               ("cfgwild", 1 * len(sh["cfg"])), ("cfgretain", len(sh["cfg"])),
@@ -1182,7 +1184,7 @@ def finding_key(kind, err, tr):
         fr = re.findall(r"#\d+ 0x[0-9a-f]+ in (\S+) ", err)
         fr = [f for f in fr if not f.startswith("__") and f not in ("malloc", "calloc", "realloc")]
         return "leak:" + (fr[1] if len(fr) > 1 else (fr[0] if fr else "?"))
-    last = tr[-1][0].split()[0] if tr and tr[-1][1] is None else "?"
+    last = [x for x in tr[-1][0].split() if not x.startswith("@")][0] if tr and tr[-1][1] is None else "?"
     return f"{kind}:{last}"
 
 
@@ -1286,10 +1288,16 @@ def check(c):
     stats = new_stats()
     ok = True
     ncorp = 0
+    binp_pool = None
     for f in sorted((vlib.ROOT / "corpus" / "C09").glob("*.ops")):
         ops = [l for l in f.read_text().split("\n") if l.strip() and not l.startswith("#")]
         ncorp += 1
         ok = judge(c, binp, ops, f"corpus {f.name}", stats) and ok
+        if any(l.split()[0].lstrip("@01 ").startswith("lat") or " lat" in l for l in ops):
+            # corpus cases with lattice calls also run on the pass-through-pool flavour
+            if binp_pool is None:
+                binp_pool = pin_harness(c.scratch, pool=True)
+            ok = judge(c, binp_pool, ops, f"corpus {f.name} (pass-through pool)", stats) and ok
     n = 300 if c.tier == "quick" else 4000
     maxcalls = 40 if c.tier == "quick" else 60
     # vlib.Rng streams of neighbouring seeds are shifted copies of each other: derive a decorrelated root
@@ -1299,7 +1307,8 @@ def check(c):
         hs.append(gen_history(root.fork(), stats, maxcalls=maxcalls))
         # lattice-heavy histories (and every fifth other one) run on the pass-through-pool flavour
         on_pool.append(stats["last_profile"] in ("lattice", "queries") or i % 5 == 0)
-    binp_pool = pin_harness(c.scratch, pool=True)
+    if binp_pool is None:
+        binp_pool = pin_harness(c.scratch, pool=True)
     stats["histories_on_passthrough_pool"] = sum(on_pool)
     for h in hs[:3]:
         c.samples.append(h[:12] + (["..."] if len(h) > 12 else []))
